@@ -51,7 +51,10 @@ def f_r2_init(schema: Schema, rep: Report):
     rep.rule("F-R2", "Aggregate.__init__: every path to the normal return passes validate_args(*args, **kwargs), the loop that sets every non-list spec attribute through setattr (no handler around it swallows the error), and _apply_args(*args); Element.__set__ stores self.convert(value)")
     p = schema.p
     rel = p.module(BASE).relpath
-    fn = p.get_function(BASE, "Aggregate.__init__").node
+    from .flat import flat
+
+    fn0 = p.get_function(BASE, "Aggregate.__init__").node
+    fn = flat(p, BASE, fn0, schema.aggregate, keep=("validate_args", "_apply_args", "_apply_residual_kwargs"))
     cfg = CFG(fn)
     ex = Expander(fn)
     va = fn.args.vararg.arg if fn.args.vararg else None
@@ -75,6 +78,9 @@ def f_r2_init(schema: Schema, rep: Report):
     rep.check("F-R2", "__init__:_apply_args", ok, "an instance can be returned without self._apply_args(*args) having run" if not ok else "", f"{rel}:{fn.lineno}")
     # the attribute loop
     loops = [n for n in cfg.nodes if n.kind == "loop" and ex.t(n.stmt.iter) in ("self.spec_no_listaggregates", "self.__class__.spec_no_listaggregates", "self.spec_no_listaggregates.keys()")]
+    if not loops and any(isinstance(c, ast.Call) and any(isinstance(a, ast.Name) and a.id in ("self", kw) for a in c.args) and not (isinstance(c.func, ast.Attribute) and text(c.func.value) == "self") and text(c.func) not in ("setattr", "super") for c in own_nodes(fn)):
+        rep.note("F-R2 undecided: the attributes are set by a helper that could not be inlined")
+        return
     if not loops:
         rep.check("F-R2", "__init__:attribute-loop", False, "no loop over self.spec_no_listaggregates: declared children are not all set through their descriptors", f"{rel}:{fn.lineno}")
         return
